@@ -1,21 +1,23 @@
 #!/bin/bash
+# usage: round3.sh <ID>...   (evaluates and confirms _seed/m1,m2 of each worktree)
 cd /verif
-for p in C01 C02 C03 C04 C05 C06 C07 C08 C09 C10 C11 C12 C13 C14 C15 C16 C17 C18 C19 C20; do
+for p in "$@"; do
+ git -C /tmp/wt/$p checkout -q --detach main 2>&1 | tail -1
  for m in m1 m2; do
   f=/tmp/wt/$p/_seed/$m.diff
   [ -f $f ] || { echo "EVAL $p $m: no diff"; continue; }
   r=$(tools/evalseed.sh /tmp/wt/$p $f $p 2>&1 | grep -E "^(VIOLATION|property=|PATCH|build failed)" | sed -e 's#replay=/verif/replays/##' | cut -c1-150 | tr '\n' ' ')
   echo "EVAL $p $m: $r"
-  mkdir -p /dev/shm/r2replays/$p-$m; mv replays/$p-*.json /dev/shm/r2replays/$p-$m/ 2>/dev/null
+  mkdir -p /dev/shm/r4replays/$p-$m; mv replays/$p-*.json /dev/shm/r4replays/$p-$m/ 2>/dev/null
  done
 done
-for p in C01 C02 C03 C04 C05 C06 C07 C08 C09 C10 C11 C12 C13 C14 C15 C16 C17 C18 C19 C20; do
+for p in "$@"; do
  for m in m1 m2; do
   d=/tmp/wt/$p/_seed/${m}_demo_test.go.txt
   [ -f $d ] || continue
   hdr=$(head -1 $d)
   place=$(echo "$hdr" | sed -n 's#.*PLACE: *\([^ ]*\) .*#\1#p'); rx=$(echo "$hdr" | sed -n "s#.*RUN: *##p" | tr -d "'\"")
-  /dev/shm/confirm.sh $p $m "${place%/}" "$rx" 2>&1 | grep -E "^C[0-9]" | sed -e 's/suite_with_change=\[20[0-9].*/suite_with_change=[log noise]/' | cut -c1-300
+  /verif/tools/confirmseed.sh $p $m "${place%/}" "$rx" 2>&1 | grep -E "^C[0-9]" | sed -e 's/suite_with_change=\[20[0-9].*/suite_with_change=[log noise]/' | cut -c1-300
  done
 done
-echo ROUND2 DONE
+echo ROUND3 PART DONE
